@@ -16,6 +16,7 @@ LEVEL_NOTE = ('Trusted: front-end, interpreter (class table, properties, super()
               'the numerical content of the rheology / thermal / Cython model holders of the layered model (stubbed as pure functions of their live inputs in R13.7/R13.8).')
 EXPLANATION = ('R13.3 history independence on the abstract object graph (single mutators and pairs) for CPL and CTL; R13.2 guard implication in update routines of the tidal classes; '
                'R13.4 flag plumbing: each mutator reaches the tides update with the flag of what it changed; R13.5 late-binding closures; R13.6 a fully updated world equals the functional API at that state; R13.7 history independence of a three-layer LayeredWorld incl. temperature changes; R13.8 per-layer heating equals the functional API on the inputs of that layer; R13.9 host-only dissipation: changes routed through the orbit, the orbiting body or the host leave the tidal quantities of the host and the cached da/dt, de/dt, dn/dt of the orbit equal to a fresh system.')
+EXPLANATION += ' R13.3 is decided a second time with array-valued state (arrays as mutable cells): the arrays the driver handed over come back intact and the exposed quantities equal those of a fresh world.'
 
 QUANT = ('_tidal_heating_global', '_dUdM', '_dUdw', '_dUdO', '_tidal_susceptibility')
 
